@@ -344,6 +344,14 @@ class Executor(object):
                 hook(st, base.hist, i, v)
             st.heap.hist_set(base.hist.owner, base.hist.field, i, v)
             return [st]
+        if isinstance(base, BoundFn) and base.kind == "loc" and isinstance(base.recv, FrameV) and base.recv.field == "_universe" and isinstance(i, TupleV) and len(i.items) == 2 and isinstance(i.items[1], StrV):
+            # strategy._universe.loc[date, child_name] = v : the column a parent keeps for a strategy child
+            owner = base.recv.owner
+            d = self._num(st, i.items[0])
+            child = st.heap.dict_at(owner, "children", i.items[1], "Node")
+            row = Num(idx_f(d.r), False, True)
+            st.heap.hist_set(child, "_ucol", row, self._num(st, v))
+            return [st]
         h = getattr(self, "ext_store_subscript", None)
         if h:
             r = h(st, base, i, v)
@@ -822,6 +830,13 @@ class Executor(object):
                 # subclasses may define the property (dynamic type unknown)
                 pass
             if p is not None:
+                tops = self.top_definers(obj.cls, attr, exclude=p.cls)
+                if tops:
+                    out = []
+                    for (s1, o1) in self.split_on_class(st, obj, tops, residual=p.cls):
+                        p1 = self.prog.lookup_property(o1.cls, attr)
+                        out.extend(self.call_function(s1, p1, o1, [], {}, via_property=True))
+                    return out
                 return self.call_function(st, p, obj, [], {}, via_property=True)
             m = self.prog.lookup_method(obj.cls, attr) if obj.cls in self.prog.classes else None
             if m is not None:
@@ -851,6 +866,8 @@ class Executor(object):
                 return [(st, BoundFn("index", "index", recv=obj))]
         if isinstance(obj, FrameV) and attr == "index":
             return [(st, BoundFn("index", "index", recv=obj))]
+        if isinstance(obj, FrameV) and attr == "loc":
+            return [(st, BoundFn("loc", "loc", recv=obj))]
         if isinstance(obj, Opt) and isinstance(obj.val, HistV):
             # attribute on optional series: must be not None
             st.oblige("%s/not-none" % self.cur_func[-1], Not(obj.isnone), kind="side")
